@@ -209,6 +209,48 @@ def run(facts, rep, tier):
                     rep.add(Finding("R13.1", "%s : `?` exit on %s" % (body.name, callee_name(inner[1])),
                                     "the line loop is left on an error that is not a pure I/O failure: " + why,
                                     span_loc(ct.get("span"))))
+            elif inner[0] == "multi" and body.locals[inner[1]].get("inlined_from"):
+                # the Result of an inlined helper: every definition is `Ok(..)` or the residual of an inner `?`
+                bad = []
+                srcs = []
+                for d in du.whole_defs(inner[1]):
+                    if d[0] == "stmt" and d[3]["rv"]["k"] == "agg" and d[3]["rv"].get("variant_idx") == 0:
+                        continue
+                    if d[0] == "stmt" and d[3].get("inline_ret"):
+                        # follow the helper's return place
+                        for d2 in du.whole_defs(operand_place(d[3]["rv"]["x"])["local"]):
+                            if d2[0] == "stmt" and d2[3]["rv"]["k"] == "agg" and d2[3]["rv"].get("variant_idx") == 0:
+                                continue
+                            if d2[0] == "call" and d2[3]["callee"].get("name") == "from_residual":
+                                srcs.append(d2[3])
+                            else:
+                                bad.append("definition %s" % d2[0])
+                        continue
+                    if d[0] == "call" and d[3]["callee"].get("name") == "from_residual":
+                        srcs.append(d[3])
+                    else:
+                        bad.append("definition %s" % d[0])
+                for fr in srcs:
+                    # residual of `x?` : x's Break payload; x must be a pure-I/O result
+                    r0 = du.root(fr["args"][0])
+                    src = None
+                    if r0[0] == "call" and r0[1]["callee"].get("name") == "branch":
+                        r1 = du.root(r0[1]["args"][0])
+                        if r1[0] == "call":
+                            src = r1[1]
+                    if src is None:
+                        bad.append("residual of an unknown `?`")
+                        continue
+                    ok1, why1 = io_only_result(facts, src)
+                    if not ok1:
+                        bad.append("%s: %s" % (callee_name(src), why1))
+                ok = not bad
+                rep.oblige(ok, ("exit-try-inlined", body.name))
+                rep.sample({"rule": "R13.1", "exit": "`?` on the io::Result of an inlined helper", "ok": ok})
+                if not ok:
+                    rep.add(Finding("R13.1", "%s : `?` exit on a helper's error" % body.name,
+                                    "the line loop is left on an error of the per-line helper that is not a pure I/O failure: %s" % "; ".join(bad[:3]),
+                                    span_loc(ct.get("span"))))
             else:
                 rep.oblige(False)
                 rep.add(Finding("R13.1", "%s : `?` exit on non-call" % body.name, "loop exit via `?` on an unknown value",
@@ -249,45 +291,13 @@ def run(facts, rep, tier):
         t = reg.loop_body.blocks[bi]["term"]
         if t["k"] == "call" and t["callee"].get("name") == "next" and reg.helper is None:
             exempt_calls.add(bi)
-    # reading the next line IS the line source: the std reader calls, and the reset of the buffer they fill (when that
-    # reset dominates the read, the buffer carries nothing from one line to the next)
-    def _mut_base(a):
-        """the local variable a `&mut` argument ultimately borrows (through reborrows)"""
-        pl = operand_place(a)
-        if pl is None:
-            return None
-        l = pl["local"]
-        for _ in range(8):
-            ds = pdu.whole_defs(l)
-            if len(ds) != 1 or ds[0][0] != "stmt":
-                return l
-            rv = ds[0][3]["rv"]
-            if rv["k"] == "ref":
-                l = rv["place"]["local"]
-                if not any(p["k"] == "deref" for p in rv["place"]["proj"]):
-                    return l
-                continue
-            if rv["k"] == "use" and operand_place(rv["x"]):
-                l = operand_place(rv["x"])["local"]
-                continue
-            return l
-        return l
-    buffers = {}
-    for bi in sorted(reg.blocks):
-        t = proc.blocks[bi]["term"]
-        if t["k"] == "call" and (t["callee"].get("path") or "") in PURE_IO and (t["callee"].get("path") or "").split("::")[-1] in (
-                "read_until", "read", "skip_until", "fill_buf"):
-            exempt_calls.add(bi)
-            for a in t["args"][1:]:
-                l = _mut_base(a)
-                if l is not None:
-                    buffers.setdefault(l, []).append(bi)
-    for bi in sorted(reg.blocks):
-        t = proc.blocks[bi]["term"]
-        if t["k"] == "call" and t["callee"].get("name") in ("clear",) and t["args"]:
-            l = _mut_base(t["args"][0])
-            if l in buffers and all(reg.cfg.dominates(bi, rb) for rb in buffers[l]):
-                exempt_calls.add(bi)
+    # reading the next line IS the line source (see sq/linebuf.py for the buffer discipline)
+    from ..linebuf import analyse as _lb
+    lb_exempt, buffers, lb_problems = _lb(reg, pdu, PURE_IO)
+    exempt_calls |= lb_exempt
+    for key, title, detail, loc in lb_problems:
+        rep.oblige(False, key)
+        rep.add(Finding("R13.2", "%s : %s" % (proc.name, title), detail, loc))
     display_only = display_only_fields(facts, reg.eff, "AppCounters")
     rep.extra["display_only_fields"] = sorted(display_only)
     rep.extra["line_buffers"] = sorted(buffers)
